@@ -15,6 +15,7 @@ fn run_family(family: &str, path: &str) {
         }
         let r = match family {
             "exec" => exec::run_case(&line),
+            "options" => exec::run_options(&line),
             _ => panic!("unknown family {family}"),
         };
         writeln!(out, "{r}").unwrap();
